@@ -2,8 +2,10 @@ package main
 
 // Kernels of z/simd (C20).
 //
-//   - the decision points / arithmetic of the amd64 wrapper `Search` (search_amd64.go) and of
-//     `Naive` (baseline.go) as KExpr kernels in the registry (module Simd);
+//   - the amd64 wrapper `Search` (search_amd64.go) and `Naive` (baseline.go): their statement
+//     SHAPE is checked (it is the shape of the hand-written model in RV/Model/Simd.lean) and
+//     the expression at every position of that shape is emitted as a kernel, whatever its
+//     operator or constant (so a changed operator breaks a proof, not the translation);
 //   - the three-clause `for` headers of those functions (init / condition / post statement),
 //     which KFunc cannot take because the loop bodies return: forHeader below;
 //   - the portable `Search` of search.go (`!amd64`, skipped by the package loader because it
@@ -19,35 +21,29 @@ import (
 	"go/token"
 	"go/types"
 	"path/filepath"
+	"regexp"
 	"strings"
 )
 
-func init() {
-	register("simd", simdSpecs())
-	extras["Simd"] = genSimdExtra
-}
+var reConstIdx = regexp.MustCompile(`\[([0-9]+#[0-9]+)\.toNat\]`)
 
-func simdSpecs() []Spec {
-	o, p := "Simd", "z/simd"
-	return []Spec{
-		// amd64 wrapper
-		{Kind: KExpr, Pkg: p, Func: "Search", Match: "len(xs) &^ 7", Lean: "wrapN", Out: o},
-		{Kind: KExpr, Pkg: p, Func: "Search", Match: "n > 0", Lean: "wrapHasPrefix", Out: o},
-		{Kind: KExpr, Pkg: p, Func: "Search", Match: "int(idx) < n/2", Lean: "wrapFound", Out: o},
-		{Kind: KExpr, Pkg: p, Func: "Search", Match: "xs[i] >= k", Lean: "wrapGe", Out: o},
-		{Kind: KExpr, Pkg: p, Func: "Search", Match: "int16(i / 2)", Lean: "wrapRet", Out: o},
-		{Kind: KExpr, Pkg: p, Func: "Search", Match: "int16(len(xs) / 2)", Lean: "wrapNone", Out: o},
-		// Naive
-		{Kind: KExpr, Pkg: p, Func: "Naive", Match: "xs[i]", Lean: "naiveLoad", Out: o},
-		{Kind: KExpr, Pkg: p, Func: "Naive", Match: "x >= k", Lean: "naiveGe", Out: o},
-		{Kind: KExpr, Pkg: p, Func: "Naive", Match: "int16(i / 2)", Nth: 1, Lean: "naiveRet", Out: o},
-		{Kind: KExpr, Pkg: p, Func: "Naive", Match: "int16(i / 2)", Nth: 2, Lean: "naiveEnd", Out: o},
-	}
+func init() {
+	extras["Simd"] = genSimdExtra
 }
 
 func genSimdExtra(load func(string) *pkgInfo) (string, error) {
 	var b strings.Builder
 	pi := load("z/simd")
+	txt0, err := wrapperKernels(pi)
+	if err != nil {
+		return "", err
+	}
+	b.WriteString(txt0)
+	txt0, err = naiveKernels(pi)
+	if err != nil {
+		return "", err
+	}
+	b.WriteString(txt0)
 	for _, h := range []struct {
 		fn, lean string
 		nth      int
@@ -108,6 +104,8 @@ func genSimdExtra(load func(string) *pkgInfo) (string, error) {
 		if err != nil {
 			return "", fmt.Errorf("%s: %v", s.Lean, err)
 		}
+		// main.go renders a constant index as `a[0#64.toNat]!`, which Lean does not parse
+		txt = reConstIdx.ReplaceAllString(txt, "[($1).toNat]")
 		b.WriteString(txt)
 		b.WriteString("\n")
 	}
@@ -212,5 +210,155 @@ func forHeader(pi *pkgInfo, fn string, nth int, lean string) (string, error) {
 		return "", fmt.Errorf("%s loop #%d: post %q outside the subset", fn, nth, pi.src(fs.Post))
 	}
 	emit("Step", fmt.Sprintf("loop post statement `%s`", pi.src(fs.Post)), c2, true, strings.TrimSpace(post), tIv)
+	return b.String(), nil
+}
+
+// emitExpr renders one expression of fn as a Lean def (same conventions as KExpr: opaque
+// leaves become the parameters in order of first occurrence).
+func emitExpr(pi *pkgInfo, fn, lean string, e ast.Expr) (string, error) {
+	c := &ctx{pi: pi, env: map[types.Object]string{}, leaves: map[string]string{}, opaque: true}
+	body, t, err := c.expr(e)
+	if err != nil {
+		return "", fmt.Errorf("%s: %v", lean, err)
+	}
+	var b strings.Builder
+	fmt.Fprintf(&b, "/-- %s: `%s` -/\ndef %s", fn, pi.src(e), lean)
+	for _, p := range c.params {
+		fmt.Fprintf(&b, " (%s : %s)", p.name, p.ty.lean())
+	}
+	fmt.Fprintf(&b, " : %s :=\n  %s\n\n", t.lean(), body)
+	return reConstIdx.ReplaceAllString(b.String(), "[($1).toNat]"), nil
+}
+
+func shapeErr(fn, what string) error {
+	return fmt.Errorf("%s no longer has the modelled shape: %s", fn, what)
+}
+
+// ifReturn matches `if <cond> { return <expr> }` (no init, no else).
+func ifReturn(st ast.Stmt) (cond, ret ast.Expr, ok bool) {
+	is, ok1 := st.(*ast.IfStmt)
+	if !ok1 || is.Init != nil || is.Else != nil || len(is.Body.List) != 1 {
+		return nil, nil, false
+	}
+	rs, ok2 := is.Body.List[0].(*ast.ReturnStmt)
+	if !ok2 || len(rs.Results) != 1 {
+		return nil, nil, false
+	}
+	return is.Cond, rs.Results[0], true
+}
+
+// wrapperKernels checks that the amd64 Search is
+//
+//	n := E1
+//	if E2 { if idx := search(xs[:n], k); E3 { return idx } }
+//	for i := …; …; … { if E4 { return E5 } }
+//	return E6
+//
+// and emits E1..E6 (the loop header is emitted by forHeader).
+func wrapperKernels(pi *pkgInfo) (string, error) {
+	fn := "Search"
+	fd := pi.findFunc(fn)
+	if fd == nil || fd.Body == nil {
+		return "", fmt.Errorf("function %s not found", fn)
+	}
+	if got := pi.src(fd.Type); got != "func(xs []uint64, k uint64) int16" {
+		return "", shapeErr(fn, "signature "+got)
+	}
+	l := fd.Body.List
+	if len(l) != 4 {
+		return "", shapeErr(fn, fmt.Sprintf("%d top-level statements, expected 4", len(l)))
+	}
+	as, ok := l[0].(*ast.AssignStmt)
+	if !ok || as.Tok != token.DEFINE || len(as.Lhs) != 1 || len(as.Rhs) != 1 || pi.src(as.Lhs[0]) != "n" {
+		return "", shapeErr(fn, "first statement is not `n := …`")
+	}
+	outer, ok := l[1].(*ast.IfStmt)
+	if !ok || outer.Init != nil || outer.Else != nil || len(outer.Body.List) != 1 {
+		return "", shapeErr(fn, "second statement is not `if … { if … }`")
+	}
+	inner, ok := outer.Body.List[0].(*ast.IfStmt)
+	if !ok || inner.Init == nil || inner.Else != nil || len(inner.Body.List) != 1 {
+		return "", shapeErr(fn, "inner statement is not `if idx := …; … { return idx }`")
+	}
+	if got := pi.src(inner.Init); got != "idx := search(xs[:n], k)" {
+		return "", shapeErr(fn, "call of the assembly routine is `"+got+"`, expected `idx := search(xs[:n], k)`")
+	}
+	if rs, ok := inner.Body.List[0].(*ast.ReturnStmt); !ok || len(rs.Results) != 1 || pi.src(rs.Results[0]) != "idx" {
+		return "", shapeErr(fn, "inner if does not `return idx`")
+	}
+	fs, ok := l[2].(*ast.ForStmt)
+	if !ok || fs.Init == nil || fs.Cond == nil || fs.Post == nil || len(fs.Body.List) != 1 {
+		return "", shapeErr(fn, "third statement is not a three-clause for loop with a one-statement body")
+	}
+	e4, e5, ok := ifReturn(fs.Body.List[0])
+	if !ok {
+		return "", shapeErr(fn, "loop body is not `if … { return … }`")
+	}
+	rs, ok := l[3].(*ast.ReturnStmt)
+	if !ok || len(rs.Results) != 1 {
+		return "", shapeErr(fn, "last statement is not a return")
+	}
+	var b strings.Builder
+	for _, k := range []struct {
+		lean string
+		e    ast.Expr
+	}{{"wrapN", as.Rhs[0]}, {"wrapHasPrefix", outer.Cond}, {"wrapFound", inner.Cond}, {"wrapGe", e4}, {"wrapRet", e5}, {"wrapNone", rs.Results[0]}} {
+		txt, err := emitExpr(pi, fn, k.lean, k.e)
+		if err != nil {
+			return "", err
+		}
+		b.WriteString(txt)
+	}
+	return b.String(), nil
+}
+
+// naiveKernels checks that Naive is
+//
+//	var i int
+//	for i = …; …; … { x := E1; if E2 { return E3 } }
+//	return E4
+func naiveKernels(pi *pkgInfo) (string, error) {
+	fn := "Naive"
+	fd := pi.findFunc(fn)
+	if fd == nil || fd.Body == nil {
+		return "", fmt.Errorf("function %s not found", fn)
+	}
+	if got := pi.src(fd.Type); got != "func(xs []uint64, k uint64) int16" {
+		return "", shapeErr(fn, "signature "+got)
+	}
+	l := fd.Body.List
+	if len(l) != 3 {
+		return "", shapeErr(fn, fmt.Sprintf("%d top-level statements, expected 3", len(l)))
+	}
+	if ds, ok := l[0].(*ast.DeclStmt); !ok || pi.src(ds) != "var i int" {
+		return "", shapeErr(fn, "first statement is not `var i int`")
+	}
+	fs, ok := l[1].(*ast.ForStmt)
+	if !ok || fs.Init == nil || fs.Cond == nil || fs.Post == nil || len(fs.Body.List) != 2 {
+		return "", shapeErr(fn, "second statement is not a three-clause for loop with a two-statement body")
+	}
+	as, ok := fs.Body.List[0].(*ast.AssignStmt)
+	if !ok || as.Tok != token.DEFINE || len(as.Lhs) != 1 || len(as.Rhs) != 1 || pi.src(as.Lhs[0]) != "x" {
+		return "", shapeErr(fn, "loop body does not start with `x := …`")
+	}
+	e2, e3, ok := ifReturn(fs.Body.List[1])
+	if !ok {
+		return "", shapeErr(fn, "loop body does not end with `if … { return … }`")
+	}
+	rs, ok := l[2].(*ast.ReturnStmt)
+	if !ok || len(rs.Results) != 1 {
+		return "", shapeErr(fn, "last statement is not a return")
+	}
+	var b strings.Builder
+	for _, k := range []struct {
+		lean string
+		e    ast.Expr
+	}{{"naiveLoad", as.Rhs[0]}, {"naiveGe", e2}, {"naiveRet", e3}, {"naiveEnd", rs.Results[0]}} {
+		txt, err := emitExpr(pi, fn, k.lean, k.e)
+		if err != nil {
+			return "", err
+		}
+		b.WriteString(txt)
+	}
 	return b.String(), nil
 }
